@@ -35,6 +35,12 @@ def run():
     for seed, probs, info in res:
         for p in probs[:1]:
             c.findings.append(Finding("bounded", "precedence", p, {"scenario_seed": seed, "scenario": info, "observed": p, "how_to_rerun": "cd /verif && /venv/bin/python -c 'from bounded import config_prec; print(config_prec.scenario(%d))'" % seed}, "%s.%s" % (info["rule"], info["attr"])))
+    ares = corpus.pmap(config_prec.alias_case, [c.seed * 1000 + i for i in range(6 if c.tier == "quick" else 60)], chunksize=1)
+    c.bounded["yaml_aliases"] = {"evaluations": len(ares), "distinct_nontrivial": len(ares), "rule": "two -c files through the real config.New: the first (YAML) shares one mapping between three rules (anchor / aliases), the second names one of them; only that rule follows the second file"}
+    for seed, probs, info in ares:
+        for p_ in probs[:1]:
+            c.findings.append(Finding("bounded", "precedence", p_, {"scenario_seed": seed, "scenario": info, "observed": p_, "how_to_rerun": "cd /verif && /venv/bin/python -c 'from bounded import config_prec; print(config_prec.alias_case(%d))'" % seed}, "alias seed=%d" % seed))
+            break
     if c.tier == "thorough":
         run_selftest(c, ["mutants_configure.py", "mutants_config.py"], lambda eng: QUALS)
     c.trusted += ["assumed contract: %s — %s" % (q, ct["trusted"]) for q, ct in sorted(c.engine.contracts.items()) if ct.get("trusted") and ("configure" in q or "severity" in q or "print_output" in q)]
